@@ -11,9 +11,13 @@ import (
 	"math"
 	"sort"
 	"strings"
+	"sync"
 
 	"golang.org/x/tools/go/ssa"
 )
+
+var qprof map[string]int
+var qprofMu sync.Mutex
 
 type InputRec struct {
 	Name string
@@ -72,6 +76,7 @@ type Exec struct {
 	rotations    []string
 	initPkg      *ssa.Package
 	canonMemo    map[*Term]*Term
+	eqConst      map[*Term]uint64
 	canonTab     map[canonKey]*Term
 	lits         map[*Term]bool
 }
@@ -150,11 +155,63 @@ func (x *Exec) literal(c *Term) (*Term, bool) {
 	return x.canon(c), pol
 }
 
-// known reports whether pc syntactically fixes the truth value of c
+// known reports whether pc syntactically fixes the truth value of c (three-valued evaluation
+// of the boolean structure over the literals asserted so far)
 func (x *Exec) knownLit(c *Term) (bool, bool) {
+	if x.lits == nil {
+		x.canon(c)
+	}
+	return x.eval3(c, 0)
+}
+
+func (x *Exec) eval3(c *Term, depth int) (bool, bool) {
+	if c.Op == OpConst {
+		return c.Val != 0, true
+	}
 	l, pol := x.literal(c)
 	if v, ok := x.lits[l]; ok {
 		return v == pol, true
+	}
+	if depth > 12 {
+		return false, false
+	}
+	switch l.Op {
+	case OpAnd:
+		all := true
+		for _, a := range l.Args {
+			v, ok := x.eval3(a, depth+1)
+			if ok && !v {
+				return !pol, true // conjunction false
+			}
+			if !ok {
+				all = false
+			}
+		}
+		if all {
+			return pol, true
+		}
+	case OpOr:
+		all := true
+		for _, a := range l.Args {
+			v, ok := x.eval3(a, depth+1)
+			if ok && v {
+				return pol, true
+			}
+			if !ok {
+				all = false
+			}
+		}
+		if all {
+			return !pol, true
+		}
+	case OpEq:
+		// sel == k1 known true  =>  sel == k2 false for another constant
+		a, b := l.Args[0], l.Args[1]
+		if b.Op == OpConst && a.Op != OpConst {
+			if kv, ok := x.eqConst[x.canon(a)]; ok {
+				return (kv == b.Val) == pol, true
+			}
+		}
 	}
 	return false, false
 }
@@ -173,6 +230,12 @@ func (x *Exec) assumeTerm(c *Term) {
 func (x *Exec) noteLits(c *Term, pol bool) {
 	l, p := x.literal(c)
 	x.lits[l] = p == pol
+	if l.Op == OpEq && (p == pol) && l.Args[1].Op == OpConst && l.Args[0].Op != OpConst {
+		if x.eqConst == nil {
+			x.eqConst = map[*Term]uint64{}
+		}
+		x.eqConst[x.canon(l.Args[0])] = l.Args[1].Val
+	}
 	// conjunctions asserted positively (or disjunctions negatively) fix their parts
 	cc := c
 	inner := pol
@@ -204,6 +267,16 @@ func (x *Exec) feasible(c *Term) (bool, Model) {
 		return true, m
 	}
 	x.queries++
+	if qprof != nil {
+		site := "?"
+		if len(x.stack) > 0 {
+			site = x.stack[len(x.stack)-1].String()
+		}
+		site += " @" + x.eng.prog.Fset.Position(x.lastPos).String()
+		qprofMu.Lock()
+		qprof[site]++
+		qprofMu.Unlock()
+	}
 	r, m := x.solver.Check(x.pc, c, true)
 	if r == Unknown {
 		r = fallbackCheck(x.pc, c, x.eng.timeout, x.eng.solverKind)
@@ -434,6 +507,14 @@ func (x *Exec) choose(n int, guards []*Term) int {
 				ok = false
 			} else if guards[i].IsTrue() {
 				m = x.model
+			} else if kv, known := x.knownLit(guards[i]); known {
+				ok = kv
+				m = x.model
+				if ok {
+					if mv, has := x.modelSays(guards[i]); !has || !mv {
+						m = nil
+					}
+				}
 			} else if v, has := x.modelSays(guards[i]); has && v {
 				m = x.model
 			} else {
